@@ -12,6 +12,7 @@ import Tranp.Lemmas.Infer
 import Tranp.Lemmas.InferScope
 import Tranp.Lemmas.InferLambda
 import Tranp.Model.InferOps
+import Tranp.Generated.InferShape
 
 namespace Tranp.C03
 open Tranp Tranp.Infer Tranp.Generated
@@ -642,14 +643,21 @@ theorem user_operator_partial {ct : ClassTable} {ps : OpParams} {lc rc pc d : St
   · have hs' : op.selects = false := by simpa using hs
     simp only [hs', Bool.not_false, if_true]
 
-/-- the class table of corpus/C03/44-witness-operator-operand-indirect-subclass.json: `Num.__add__(other: Num) -> Num`,
-    `Big(Num).__add__(other: Num) -> Big`, `Big2(Big)` -/
-def opWitness : ClassTable × OpParams :=
-  let add : Str := ['_', '_', 'a', 'd', 'd', '_', '_']
-  let num : Str := ['N', 'u', 'm']
-  let big : Str := ['B', 'i', 'g']
-  ([⟨num, [], [⟨add, .method, .cls num .nil⟩]⟩, ⟨big, [num], [⟨add, .method, .cls big .nil⟩]⟩, ⟨['B', 'i', 'g', '2'], [big], []⟩],
-   [((num, add), .cls num .nil), ((big, add), .cls num .nil)])
+/-- `sound_user_operator`: the property sentence for `x op y` on instances of user classes, at the level of VALUES: under the
+    hypotheses of `user_operator_partial`, whatever CPython's call `type(x).<dunder>(x, y)` returns is denoted by the inferred type
+    (`WorldConf`: a method returns a value of its declared type, also when an override of a subclass of `lc` runs). -/
+theorem sound_user_operator {ct : ClassTable} {W : World} {ps : OpParams} {lc rc pc d : Str} {op : BOp} {m : Member} {p : Ty} {x y v : Val}
+    (hW : WorldConf ct W) (hx : Conf ct x (.cls lc .nil)) (_hy : Conf ct y (.cls rc .nil))
+    (hl : (findClass ct lc).isSome = true) (hd : lookup op.token Dunder.operators = some d) (hm : memberOf ct lc d = some m)
+    (hk : m.kind = .method) (hp : userOpParam ct ps lc d = some p) (hpc : (paramAlts p).contains (.cls pc .nil) = true)
+    (hr : rc = pc ∨ pc ∈ directBases ct rc) (hev : evalUserOp W x op y = .ok v) :
+    ∃ T, tryStepAny ct ps (.cls lc .nil) op (.cls rc .nil) = some T ∧ Conf ct v T := by
+  have hc : m.callable = true := by simp [Member.callable, hk]
+  refine ⟨m.ty, ?_, ?_⟩
+  · rw [user_operator_partial hl hd hm hc hp hpc hr]
+    simp [pyUserOpTy, hd, hm, hc]
+  · simp only [evalUserOp, hd] at hev
+    exact hW.call_ok x lc d [y] m v hx hm (Or.inl hk) hev
 
 /-- non-vacuity of `user_operator_partial`: `nu + bg` (one level) is typed `Num`, like CPython's `Num.__add__(nu, bg)` -/
 example : tryStepAny opWitness.1 opWitness.2 (.cls ['N', 'u', 'm'] .nil) .add (.cls ['B', 'i', 'g'] .nil) = some (.cls ['N', 'u', 'm'] .nil) ∧
@@ -797,5 +805,29 @@ theorem spread_tuple_counterexample :
     .tuple (.cons (.int 1) (.cons (.str ['a']) .nil))
   have := h _ .int _ [.int 1, .str ['a']] hc rfl rfl (.str ['a']) (by simp)
   cases this
+
+/-! ## the constants of the handlers, read from the source on every run (Tranp/Generated/InferShape.lean) -/
+
+/-- `BOp.arith` is `Operations.arthmetical` and `BOp.selects` the operators for which `try_operation` checks the parameter: exactly
+    the literal lists of accessible.py / traits.py, for every operator token. (The translator also pins the statement sequence of
+    `try_operation` and `each_binary_operator`: another shape is a TranslateError.) -/
+theorem shape_operators : ∀ op : BOp, op.arith = InferShape.arithTokens.contains op.token ∧
+    op.selects = (InferShape.arithTokens ++ InferShape.selectTokens).contains op.token := by
+  intro op
+  cases op <;> decide
+
+/-- the positions the handlers read from `attrs` are the ones the model uses: `on_spread` the first type argument, `on_indexer` the
+    first for a list element and the second for a dict value, `iterates` the first of `Iterator<T>` -/
+theorem shape_attr_indexes :
+    lookup ['o', 'n', '_', 's', 'p', 'r', 'e', 'a', 'd'] InferShape.attrIndexes = some [0] ∧
+    lookup ['o', 'n', '_', 'i', 'n', 'd', 'e', 'x', 'e', 'r'] InferShape.attrIndexes = some [0, 1] ∧
+    InferShape.iteratesIndex = 0 ∧ InferShape.operandBasesDirect = true ∧ InferShape.receiverFirst = true ∧
+    (∀ t : Ty, onSpread t = match t.attrs.get? 0 with | some a => .ok a | none => .error .fatal) ∧
+    (∀ (t : Ty) (k : Expr), (onIndex (.list t) k).toOption = (Ty.list t).attrs.get? 0) ∧
+    (∀ (a b : Ty) (k : Expr), (onIndex (.dict a b) k).toOption = (Ty.dict a b).attrs.get? 1) := by
+  refine ⟨by decide, by decide, by decide, by decide, by decide, ?_, fun _ _ => rfl, fun _ _ _ => rfl⟩
+  intro t
+  unfold onSpread
+  cases h : t.attrs <;> rfl
 
 end Tranp.C03
